@@ -219,10 +219,10 @@ class MapRemoveName(_MapOp):
         d, u, m, c = sigma(st, self.ns)
         n = self.name_.e
         x = z3.Const("x!other", StrS)
-        removable = z3.And(z3.Length(n) > 0, z3.Select(d0, n), n != NS_NAME)
+        removable = z3.And(z3.Select(d0, n), n != NS_NAME)       # (every name, the empty string included: a simple map)
         return [("returns the number of entries really removed (1 or 0)", result.e == z3.If(removable, 1, 0)),
                 ("a removable name is gone afterwards, the count follows", z3.Implies(removable, z3.And(z3.Not(z3.Select(d, n)), c == c0 - 1))),
-                ("otherwise nothing changes (unknown name, empty name, the name server's own entry)", z3.Implies(z3.Not(removable), unchanged(old, st, self.ns))),
+                ("otherwise nothing changes (unknown name, the name server's own entry)", z3.Implies(z3.Not(removable), unchanged(old, st, self.ns))),
                 ("the name server's own entry is never removed", z3.Implies(z3.Select(d0, NS_NAME), z3.Select(d, NS_NAME))),
                 ("every other name is untouched", z3.ForAll([x], z3.Implies(x != n, z3.Select(d, x) == z3.Select(d0, x))))]
 
